@@ -6,7 +6,7 @@ From PySM Require Import Impl.Engine Proofs.EngineFrame Proofs.EngineProofs Proo
 (* a failure in validators / conditions / before / exit / on: the exception escapes _activate and the
    stored state is still the one before the transition (the source) *)
 Theorem C04_failure_before_assignment :
-  forall beh nested rm, (forall td c, Rres grows c (nested td c)) ->
+  forall beh nested rm, (forall td c, Rres grows c (nested td c)) -> no_writes beh ->
   forall t td c c' e,
     activate_pre beh nested rm t (act_ctx t td c) (set_nact c (S (nact c))) = Exn c' e ->
     activate beh nested rm t td c = Exn c' e /\ field c' = field c.
@@ -15,7 +15,7 @@ Print Assumptions C04_failure_before_assignment.
 
 (* a failure in enter / after: the exception escapes and the stored state is the target *)
 Theorem C04_failure_after_assignment :
-  forall beh nested rm, (forall td c, Rres grows c (nested td c)) ->
+  forall beh nested rm, (forall td c, Rres grows c (nested td c)) -> no_writes beh ->
   forall t td c c1 v c' e,
     let x := act_ctx t td c in
     activate_pre beh nested rm t x (set_nact c (S (nact c))) = Ok c1 (Some v) ->
@@ -27,7 +27,7 @@ Print Assumptions C04_failure_after_assignment.
 (* never anything else: every outcome of one _activate call is one of: rejected (state, lock
    untouched), fired (target stored), failed before the assignment, failed after it *)
 Theorem C04_activate_outcomes :
-  forall beh nested rm, (forall td c, Rres grows c (nested td c)) ->
+  forall beh nested rm, (forall td c, Rres grows c (nested td c)) -> no_writes beh ->
   forall t td c, act_effect t c (activate beh nested rm t td c).
 Proof. exact activate_effect. Qed.
 Print Assumptions C04_activate_outcomes.
